@@ -159,6 +159,13 @@ func parseContractText(text, path, pkg string, cs *ContractSet) error {
 				if rest != "" {
 					c.Invariant = append(c.Invariant, Clause{Text: rest, File: base, Line: head.line})
 				}
+			} else if strings.HasPrefix(rest, "view") {
+				rest = strings.TrimSpace(rest[len("view"):])
+				if rest != "" {
+					c.Views = append(c.Views, Clause{Text: rest, File: base, Line: head.line})
+				}
+			} else if rest != "" {
+				return fmt.Errorf("%s:%d: type block: expected invariant or view", path, head.line)
 			}
 		default:
 			return fmt.Errorf("%s:%d: block must start with func/iface/type/lemma", path, head.line)
